@@ -202,6 +202,9 @@ def gen_pairs(ctx):
         c = {"api": api, "src": src, "tgt": tgt, "cls": cls}
         c.update(kw)
         c["history"] = (len(cases) % 2 == 0)      # every other request is repeated through the caches at the end
+        if api == "gas" and src["proj"] != tgt["proj"]:
+            # the different-CRS branch is also asked for slices of a length divisible by N (shape_divisible_by)
+            c["divisible"] = sorted(r.sample([2, 3, 4, 5, 7, 8, 16], 3))
         cases.append(c)
 
     n_general = ctx.n(70, 700)
@@ -492,6 +495,35 @@ def judge_cover(case, out, res, api):
     return None
 
 
+def judge_divisible(case, res, div):
+    """get_area_slices(..., shape_divisible_by=N) against the same call without it, per axis (x limited by the source
+    WIDTH, y by its HEIGHT): a proper slice of the axis, of a length divisible by N when the axis is at least N long, and
+    still holding the undivided slice whenever its length rounded up to a multiple of N fits on the axis (C19's law,
+    C11_gas_divisible_keeps_vertices).  Returns (verdicts, coq lines)."""
+    v, lines = [], []
+    if "sl" not in res:
+        return v, lines
+    H, W = case["src"]["shape"]
+    for n_txt, r in sorted(div.items(), key=lambda kv: int(kv[0])):
+        n = int(n_txt)
+        if "sl" not in r:
+            v.append(("C11.gas.shape_divisible_by", "get_area_slices(shape_divisible_by=%d) raises %s, without it returns %s" % (n, r, res["sl"])))
+            continue
+        for name, (a, b), (ra, rb), size in (("x", res["sl"][0:2], r["sl"][0:2], W), ("y", res["sl"][2:4], r["sl"][2:4], H)):
+            if not (0 <= a < b <= size):
+                continue          # no proper undivided slice along this axis: the law says nothing
+            lines.append("(%d, %d, %d, %d, (%d, %d))" % (a, b, size, n, ra, rb))
+            need = -(-(b - a) // n) * n
+            ok = 0 <= ra < rb <= size and (size < n or (rb - ra) % n == 0) and (need > size or (ra <= a and b <= rb))
+            if not ok:
+                v.append(("C11.gas.shape_divisible_by",
+                          "get_area_slices(shape_divisible_by=%d) turns the %s slice [%d:%d] of an axis of %d into [%d:%d]: %s"
+                          % (n, name, a, b, size, ra, rb,
+                             "drops needed pixels although %d fit on the axis" % need if need <= size and not (ra <= a and b <= rb)
+                             else "not a proper / divisible slice of the axis")))
+    return v, lines
+
+
 def frac_index(src, px, py):
     """exact rational fractional index of projection point (px, py) in the source grid"""
     x0, y0, x1, y1 = [Fraction(v) for v in src["extent"]]
@@ -694,6 +726,10 @@ def judge(case, o):
     j = judge_cover(case, o, res, api)
     if j:
         v.append(j)
+    if api == "gas" and "div" in o:
+        dv, dl = judge_divisible(case, res, o["div"])
+        v.extend(dv)
+        case["_div_lines"] = dl
     if api == "gas" and o["inst"].get("same_crs") and not j:
         t = judge_same_crs_tight(case, res)
         if t:
@@ -778,6 +814,7 @@ def run(ctx):
 
     # ---- property oracle on the implementation
     L_crop, L_arr, L_create, L_starts, L_gas, L_swath, L_ens, L_ori = [], [], [], [], [], [], [], []
+    L_div = []
     sampled = set()       # one evidence sample per (api, input group): varied samples instead of the first few cases
     for c, o in zip(cases, obs_pairs):
         api = c["api"]
@@ -792,6 +829,9 @@ def run(ctx):
         ctx.count("outcome:%s:%s" % (api, outcome))
         if c.get("_outer_band_only"):
             ctx.count("nonoverlap_with_centres_only_in_outer_half_pixel_band")
+        if c.get("_div_lines"):
+            L_div.extend(c["_div_lines"])
+            ctx.count("gas:shape_divisible_by_axes", len(c["_div_lines"]))
         if c.get("_history"):
             ctx.count("history:%s_repeated_through_cache" % api)
         if "_bil_ok" in c:
@@ -885,7 +925,7 @@ def run(ctx):
     # ---- correspondence: model (binary64 / Z) vs implementation, exact
     groups = [("crop", "chk_crop", L_crop), ("arr", "chk_arr", L_arr), ("create", "chk_create", L_create),
               ("starts", "chk_starts", L_starts), ("gas", "chk_gas", L_gas), ("swath", "chk_swath", L_swath),
-              ("ensure", "chk_ensure", L_ens), ("orient", "chk_orient", L_ori)]
+              ("ensure", "chk_ensure", L_ens), ("orient", "chk_orient", L_ori), ("gas_divisible", "chk_div", L_div)]
     texts = []
     for name, chk, L in groups:
         for sh in range(0, max(len(L), 1), 400):
